@@ -79,7 +79,7 @@ pub fn check_accepted(v: &Visit) -> CaseResult {
 
 pub fn run(ctx: &Ctx) -> Report {
     let mut rep = Report::new(ctx);
-    rep.rule = "Soundness: (a) builder states = constructed valid-looking states with 0..3 edits (overwrite a square with any piece incl. kings and back-rank pawns, remove a piece, kings adjacent, set/clear a right on any file, any EP square, any clocks, flip the turn, ninth pawn, seventeenth man, check against the side not to move, extra checkers, relocated king); (b) FEN strings = canonical records of such states / seed FENs / repo invalid.sfens lines with 0..3 text mutations, through from_fen(false), from_fen(true) and FromStr; (c) start constructors and every board produced by play/null_move along histories. Every board handed out must pass the reference structural check (one king each, kings not adjacent, <=16 men, <=8 pawns, no pawn on rank 1/8, side not to move not attacked, rights backed by king on back rank + own rook on the named file on the correct side, EP backed by a just-double-pushed enemy pawn, clocks in range) and, for the builder, show exactly the state put in. Acceptance: every position along move-only histories from DFRC starts re-enters via from_fen(true), FromStr and the builder, giving an equal board. Non-trivial = an ACCEPTED board that came from an edited state or mutated string, or a reached position with EP set / in check / after castling; distinct by hash.".into();
+    rep.rule = "Soundness: (a) builder states = constructed valid-looking states with 0..3 edits (overwrite a square with any piece incl. kings and back-rank pawns, remove a piece, kings adjacent, set/clear a right on any file, any EP square, any clocks, flip the turn, ninth pawn, seventeenth man, check against the side not to move, extra checkers, relocated king); (b) FEN strings = canonical records of such states / seed FENs / repo invalid.sfens lines with 0..3 text mutations, through from_fen(false), from_fen(true) and FromStr; (c) start constructors and every board produced by play/null_move along histories; (d) the clock setters with every u8 / boundary u16 argument under catch_unwind, in the checked and the unchecked build (out-of-range arguments must be refused, so no board with a clock out of range can be handed out). Every board handed out must pass the reference structural check (one king each, kings not adjacent, <=16 men, <=8 pawns, no pawn on rank 1/8, side not to move not attacked, rights backed by king on back rank + own rook on the named file on the correct side, EP backed by a just-double-pushed enemy pawn, clocks in range) and, for the builder, show exactly the state put in. Acceptance: every position along move-only histories from DFRC starts re-enters via from_fen(true), FromStr and the builder, giving an equal board. Non-trivial = an ACCEPTED board that came from an edited state or mutated string, or a reached position with EP set / in check / after castling; distinct by hash.".into();
     rep.assumptions = vec!["reference structural_defect() is the wording of C06".into()];
     rep.required_classes = vec![
         "state:king-count", "state:kings-adjacent", "state:more-than-16-men", "state:more-than-8-pawns", "state:pawn-on-back-rank", "state:side-not-to-move-in-check",
@@ -167,6 +167,42 @@ pub fn run(ctx: &Ctx) -> Report {
         }
         Ok(())
     }));
+    // clock setters: an out-of-range argument must be refused (panic) in every build profile;
+    // an in-range one must leave a sound board
+    let mut setters = PartResult::empty();
+    {
+        let base = Board::default();
+        for n in 0..=255u8 {
+            setters.stats.eval(1);
+            let mut b = base.clone();
+            let r = catch_unwind(AssertUnwindSafe(|| b.set_halfmove_clock(n)));
+            let sound = check_sound(&b, &format!("set_halfmove_clock({}) [build {}]", n, build_name()), &[("setter", format!("halfmove:{}", n))]);
+            if (n <= 100) != r.is_ok() {
+                setters.failures.push(Failure::new("C06:setter-range", format!("set_halfmove_clock({}) {} [build {}]", n, if r.is_ok() { "was accepted" } else { "panicked" }, build_name())).with("setter", format!("halfmove:{}", n)));
+                break;
+            }
+            if let Err(f) = sound {
+                setters.failures.push(f);
+                break;
+            }
+        }
+        for n in [0u16, 1, 2, 100, 65534, 65535] {
+            setters.stats.eval(1);
+            let mut b = base.clone();
+            let r = catch_unwind(AssertUnwindSafe(|| b.set_fullmove_number(n)));
+            let sound = check_sound(&b, &format!("set_fullmove_number({}) [build {}]", n, build_name()), &[("setter", format!("fullmove:{}", n))]);
+            if (n >= 1) != r.is_ok() {
+                setters.failures.push(Failure::new("C06:setter-range", format!("set_fullmove_number({}) {} [build {}]", n, if r.is_ok() { "was accepted" } else { "panicked" }, build_name())).with("setter", format!("fullmove:{}", n)));
+                break;
+            }
+            if let Err(f) = sound {
+                setters.failures.push(f);
+                break;
+            }
+        }
+        setters.stats.class("clock-setters");
+    }
+    rep.add(setters);
     // all 960 symmetric start constructors
     let mut starts = PartResult::empty();
     for n in 0..960u32 {
@@ -182,6 +218,17 @@ pub fn run(ctx: &Ctx) -> Report {
 }
 
 pub fn replay(m: &ReplayMap) -> CaseResult {
+    if let Some(t) = m.get("setter") {
+        let (which, n) = t.split_once(':').unwrap_or(("halfmove", "0"));
+        let mut b = Board::default();
+        let n: u32 = n.parse().unwrap_or(0);
+        let r = if which == "halfmove" { catch_unwind(AssertUnwindSafe(|| b.set_halfmove_clock(n as u8))) } else { catch_unwind(AssertUnwindSafe(|| b.set_fullmove_number(n as u16))) };
+        let in_range = if which == "halfmove" { n <= 100 } else { n >= 1 };
+        if r.is_ok() != in_range {
+            return Err(Failure::new("C06:setter-range", format!("clock setter {} misbehaves in build {}", t, build_name())));
+        }
+        return check_sound(&b, "board after clock setter", &[]);
+    }
     if let Some(t) = m.get("bstate") {
         let st = RawState::parse(t).ok_or_else(|| Failure::new("bad-replay", "bad bstate".into()))?;
         return check_builder_state(&st);
